@@ -299,6 +299,15 @@ let () = run_lines (fun toks ->
   | "enum" :: fx :: es :: addr :: nh :: sizes :: l :: prefix ->
     cmd_enum (parse_fx fx) (zi (int_of_string es)) (addr = "1") (int_of_string nh)
       (List.map int_of_string (String.split_on_char ',' sizes)) (int_of_string l) prefix
+  | "rcdirty" :: sizes :: [] ->
+    (* the same preamble as the harness, with the model's GivMMFreeList functions on the pool of the reference-counting layer *)
+    let n = ref 0 in
+    List.iter (fun sz ->
+      let alloc () = let ((a1, p), _) = fl_allocate true !tab !rpool.rs_a (zi (sz + 8)) in rpool := { !rpool with rs_a = a1 }; p in
+      let p1 = alloc () in let p2 = alloc () in n := !n + 2;
+      List.iter (fun p -> let (a1, _) = fl_desallocate !rpool.rs_a p in rpool := { !rpool with rs_a = a1 }) [p1; p2])
+      (List.map int_of_string (String.split_on_char ',' sizes));
+    "dirty " ^ string_of_int !n
   | "rcq" :: ops -> cmd_rcq ops
   | "rcenum" :: sizes :: l :: prefix -> cmd_rcenum (List.map int_of_string (String.split_on_char ',' sizes)) (int_of_string l) prefix
   | "alloc" :: f0 :: ops -> cmd_alloc (f0 = "1") ops
